@@ -123,7 +123,23 @@ def race_last_leave(tries=3, iters=20000):
     return {'replayed': False, 'detail': 'no interleaving of the two threads left the stopped actor in a group (%d x %d rounds): %s' % (tries, iters, runs), 'replay': {'race': 'last_leave_join', 'op': 'last_leave_join'}}
 
 
+def race_join_exit(tries=3, iters=400):
+    """a join must look at the actor's status again once it holds the actor's relations lock (the lock the exit clean-up takes after publishing Stopping): one
+    thread joins a long list ending in the actor while the actor is stopped / killed; after the exit and the join the actor must be in no group"""
+    runs = []
+    for t in range(tries):
+        out, _, rc, err = native.run('pg_race', mode='join_exit', k=1500, iters=iters, timeout=300)
+        if rc != 0:
+            raise RuntimeError('native pg race failed: ' + err[-300:])
+        runs.append({'disagreements': out.get('disagreements'), 'detail': out.get('detail', '')})
+        if out.get('disagreements', '0') != '0':
+            return {'replayed': True, 'detail': 'two threads on the real build (join_exit): %s' % out.get('detail'), 'replay': {'race': 'join_exit', 'op': 'join_exit'}}
+    return {'replayed': False, 'detail': 'no interleaving of the join and the exit left the stopped actor in the group (%d x %d rounds): %s' % (tries, iters, runs), 'replay': {'race': 'join_exit', 'op': 'join_exit'}}
+
+
 def replay_json(rp):
+    if rp.get('race') == 'join_exit':
+        return race_join_exit()
     if rp.get('race') == 'last_leave_join':
         return race_last_leave()
     if 'race' in rp:
